@@ -301,6 +301,12 @@ static long eval_const_expr(Token **rest, Token *tok) {
   // Convert pp-numbers to regular numbers
   convert_pp_tokens(expr);
 
+  // [https://www.sigbus.info/n1570#6.10.1p4] In #if, all signed and
+  // unsigned integer types act as if they were intmax_t and uintmax_t.
+  for (Token *t = expr; t->kind != TK_EOF; t = t->next)
+    if (t->kind == TK_NUM && is_integer(t->ty) && t->ty->size < 8)
+      t->ty = t->ty->is_unsigned ? ty_ulong : ty_long;
+
   Token *rest2;
   long val = const_expr(&rest2, expr);
   if (rest2->kind != TK_EOF)
